@@ -425,6 +425,44 @@ fn main() {
 		observe(&format!("Arc<[Tr; 1100]> {}", label), move || <Arc<[Tr; 1100]>>::decode(&mut &b2[..]));
 		unsafe { CASES += 2 };
 	}
+	// an `Input` that reports success after filling only part of the buffer (a safe trait: the
+	// decoder must not hand out memory nobody initialised, whatever the input does)
+	{
+		struct ShortFill;
+		impl Input for ShortFill {
+			fn remaining_len(&mut self) -> Result<Option<usize>, Error> {
+				Ok(None)
+			}
+			fn read(&mut self, into: &mut [u8]) -> Result<(), Error> {
+				let n = into.len() / 2;
+				for b in &mut into[..n] {
+					*b = 1;
+				}
+				Ok(())
+			}
+		}
+		let a = <[u32; 1000]>::decode(&mut ShortFill).unwrap();
+		let b = <Box<[u64; 700]>>::decode(&mut ShortFill).unwrap();
+		let c = <Rc<[u8; 3000]>>::decode(&mut ShortFill).unwrap();
+		let d = <Vec<u16>>::decode(&mut ShortFill);
+		let mut sum = 0u64;
+		for x in a.iter() {
+			sum += *x as u64;
+		}
+		for x in b.iter() {
+			sum = sum.wrapping_add(*x);
+		}
+		for x in c.iter() {
+			sum += *x as u64;
+		}
+		if let Ok(d) = d {
+			for x in d.iter() {
+				sum += *x as u64;
+			}
+		}
+		println!("CASE short-filling input sum={}", sum % 7);
+		unsafe { CASES += 4 };
+	}
 	// zero-sized payloads behind holders
 	observe("Box<()>", || <Box<()>>::decode(&mut &[][..]));
 	observe("Vec<Box<()>>", || <Vec<Box<()>>>::decode(&mut &[3 << 2][..]));
